@@ -32,10 +32,8 @@ MUTANTS = [
 ]
 H_DEFAULT = {"n": 3, "cap": 1}
 
-# Client-layer model (DEClient.tla / MC_client.tla), explored from the settled state after the first election.
-# PRE_LED is the schedule that takes real nodes to that state (TLC: configuration `settle`, depth 13).
-CLIENT = dict(Node="{1,2,3}", MaxTerm=3, MaxLog=3, MaxMsgs=6, Cap=100, Faults=["Client"], MaxCrash=0, MaxDrop=0, MaxReads=1)
-R_INVS = ["R_NoStaleRead", "R_AckAfterApply", "R_AckedIsCommitted", "R_ApplyBehindCommit"]
+# Client-layer model: configurations, prefix schedule and helpers live in cluster.py
+CLIENT = dict(cluster.CLIENT, Eager="{3}", Lean=True)
 CLIENT_MUTANTS = [
     # (name, deviations switched on, invariants, properties whose checks replay the schedule)
     ("M_NoApplyGate", ["M_NoApplyGate"], ["R_NoStaleRead"], ["C11", "C10"]),
@@ -46,32 +44,8 @@ CLIENT_MUTANTS = [
     ("dev_ReadServedOnApplyWithoutConfirmation", ["ReadServedOnApplyWithoutConfirmation"], ["R_NoStaleRead"], ["C11"]),
     ("dev_AnyAckConfirmsReads", ["AnyAckConfirmsReads"], ["R_NoStaleRead"], ["C11"]),
 ]
-
-
-def F(a, b):
-    return {"from": a, "to": b}
-
-
-PRE_LED = ([{"a": "LagAll"}, {"a": "Timeout", "n": 1}, {"a": "StartRound", "n": 1},
-            dict(a="DeliverVQ", **F(1, 2)), dict(a="DeliverVQ", **F(1, 3)),
-            dict(a="DeliverAE", **F(1, 2)), dict(a="DeliverAE", **F(1, 3)),
-            dict(a="DeliverAR", **F(2, 1)), dict(a="DeliverAR", **F(3, 1)), {"a": "Heartbeat", "n": 1},
-            dict(a="DeliverAE", **F(1, 2)), dict(a="DeliverAE", **F(1, 3)),
-            dict(a="DeliverAR", **F(2, 1)), dict(a="DeliverAR", **F(3, 1))])
-
-
-def client_steps(hist, tag):
-    """schedule of a DEClient behaviour: one key, distinguishable values"""
-    out, k = [], 0
-    for st in hist:
-        st = dict(st)
-        if st.get("a") == "Client":
-            st["key"] = "k1"
-            if st.get("op") == "put":
-                k += 1
-                st["val"] = "%s_%d" % (tag, k)
-        out.append(st)
-    return out
+PRE_LED = cluster.PRE_LED
+client_steps = cluster.client_steps
 
 
 def gen_client(wd, outdir, only):
